@@ -148,6 +148,35 @@ class Gen:
                     return cc + dd + b2
         return None
 
+    def zero_run_bbans(self, cc, rng, fills=4):
+        """Structured BBANs: a prefix, a run of zeros (the class minimum) and a suffix, for every prefix length and a spread of
+        run lengths; prefix/suffix filled with a varied number of letters where the structure allows letters. Long zero runs
+        and exact block boundaries are where chunked / shifted arithmetic goes wrong."""
+        cl = self.classes(cc)
+        n = len(cl)
+        zero = "".join(_CLASS_CHARS[k][0] for k in cl)
+        runs = sorted({1, 2, 5, 8, 9, 10, 12, 15, 16, 17, 18, 19, 20, 24, 27, n // 2, n - 1})
+        for a in range(0, min(n, 8)):
+            for z in runs:
+                if a + z > n:
+                    continue
+                b_len = n - a - z
+                for _ in range(fills):
+                    chars = list(zero)
+                    for i in list(range(a)) + list(range(a + z, n)):
+                        k = cl[i]
+                        if k == "c":
+                            # number of letters varies uniformly over the fills (not binomially)
+                            chars[i] = rng.choice(ASCII_UPPER) if rng.random() < self._p_letter else rng.choice("123456789")
+                        elif k == "n":
+                            chars[i] = rng.choice("123456789")
+                        else:
+                            chars[i] = rng.choice(_CLASS_CHARS[k])
+                    self._p_letter = rng.random()
+                    yield a, z, "".join(chars)
+
+    _p_letter = 0.5
+
     def iban_of(self, cc, bban):
         return cc + canonical_digits(cc, bban) + bban
 
